@@ -34,11 +34,19 @@ def check(spec: dict) -> core.CaseResult:
 
 
 def plan(tier: str) -> list[dict]:
-    return dagprop.std_plan(tier, controlled=(11, 150, 2500), serial=(1, 60, 1200), fork=(3, 25, 500), spawn=(1, 6, 120))
+    q = tier == 'quick'
+    jobs = dagprop.std_plan(tier, controlled=(9, 150, 2500), serial=(1, 60, 1200), fork=(2, 25, 500), spawn=(1, 5, 100))
+    # focused fan-in cases (failing leaves read by a parent) for the backend that copies dependency results into each child
+    jobs += [{'engine': 'spawn:fanin', 'n': 7 if q else 120, 'hashseed': i} for i in range(3)]
+    jobs += [{'engine': 'fork:fanin', 'n': 25 if q else 400, 'hashseed': 4}]
+    return jobs
 
 
 def run_job(rec: core.Recorder, job: dict, seed: int) -> None:
     eng = job['engine']
+    if eng.endswith(':fanin'):
+        core.run_hypothesis(rec, eng, specs.fanin_spec(eng.split(':')[0]), check, max_examples=job['n'], seed=seed, shrink=(rec.tier == 'thorough'))
+        return
     fail = ['raise:ValueError', 'raise:CustomErr'] + ([] if eng == 'serial' else ['kill9'])
     strat = specs.dag_spec(max_nodes=5 if eng == 'spawn' else 9, backends=(eng,), fail_modes=fail, fail_rate=20,
                            dup_bias=(seed % 3 == 0), bust=True)
